@@ -23,6 +23,7 @@ ACTIONS = {'FirstByte': ('nul',), 'Auth': ('m', 'ir', 'o'), 'Data': ('p', 'o'), 
            'ErrorLine': (), 'TooLong': (), 'Other': ('kind',), 'AfterClose': ('kind',)}
 OBS = ['resp', 'authed', 'closed']      # authed/closed are derived below; see project()
 BASE = 'MC_AuthServer'
+NONTEXT = [0]
 
 
 @implementer(authentication.IBusAuthenticationMechanism)
@@ -59,10 +60,30 @@ class M2(StubMech):
 
 
 class TmpCookie(authentication.BusCookieAuthenticator):
-    keyring = None
+    """The real mechanism; only the account database is staged: the user named in the AUTH line has a scratch home
+    directory, and the bus runs under an account whose own home (HOME) is elsewhere.  The keyring belongs to the user
+    who authenticates - that is where a conforming client of that user looks."""
+    home = None
+    bus_home = None
 
     def _step_one(self, username, keyring_dir=None):
-        return authentication.BusCookieAuthenticator._step_one(self, username, TmpCookie.keyring)
+        import pwd
+        real = pwd.getpwnam
+
+        def staged(name):
+            p = real(name)
+            return pwd.struct_passwd((p.pw_name, p.pw_passwd, p.pw_uid, p.pw_gid, p.pw_gecos, TmpCookie.home, p.pw_shell))
+        saved = os.environ.get('HOME')
+        pwd.getpwnam = staged
+        os.environ['HOME'] = TmpCookie.bus_home
+        try:
+            return authentication.BusCookieAuthenticator._step_one(self, username)
+        finally:
+            pwd.getpwnam = real
+            if saved is None:
+                os.environ.pop('HOME', None)
+            else:
+                os.environ['HOME'] = saved
 
 
 class _Bus:
@@ -81,9 +102,12 @@ class AuthServerDriver:
         self.t = fakes.MemoryTransport()
         self.keyring = None
         if real:
-            self.keyring = tempfile.mkdtemp(prefix='txv-keyring-', dir='/dev/shm' if os.path.isdir('/dev/shm') else None)
-            os.chmod(self.keyring, 0o700)
-            TmpCookie.keyring = self.keyring
+            self.home = tempfile.mkdtemp(prefix='txv-keyring-', dir='/dev/shm' if os.path.isdir('/dev/shm') else None)
+            os.chmod(self.home, 0o700)
+            os.mkdir(os.path.join(self.home, 'bus-account'), 0o700)
+            self.keyring = os.path.join(self.home, '.dbus-keyrings')       # created by the bus on first use
+            TmpCookie.home = self.home
+            TmpCookie.bus_home = os.path.join(self.home, 'bus-account')
             mechs = {b'EXTERNAL': authentication.BusExternalAuthenticator, b'DBUS_COOKIE_SHA1': TmpCookie,
                      b'ANONYMOUS': authentication.BusAnonymousAuthenticator}
         else:
@@ -111,7 +135,7 @@ class AuthServerDriver:
     def close(self):
         txdbus.protocol._is_linux = self.saved_linux
         if self.keyring:
-            shutil.rmtree(self.keyring, ignore_errors=True)
+            shutil.rmtree(self.home, ignore_errors=True)
 
     def feed(self, data, splits=None):
         before = len(self.t.log)
@@ -165,8 +189,13 @@ class AuthServerDriver:
         elif name == 'TooLong':
             line = b'AUTH ' + b'A' * 16400
         elif name == 'Other':
-            line = {'negotiate': b'NEGOTIATE_UNIX_FD', 'unknown': b'FOO bar', 'empty': b'',
-                    'nontext': b'\xff\xfe AUTH'}[args[0]]
+            if args[0] == 'nontext':
+                # bytes that are not text - among them lines that would spell a command if those bytes were dropped
+                NONTEXT[0] += 1
+                line = [b'\xff\xfe AUTH', b'BEG\xc3\xa9IN', b'\xffAUTH ANONYMOUS', b'BEGIN\x80', b'CAN\x80CEL',
+                        b'DA\xe9TA 00', b'\xc3\xa9BEGIN'][NONTEXT[0] % 7]
+            else:
+                line = {'negotiate': b'NEGOTIATE_UNIX_FD', 'unknown': b'FOO bar', 'empty': b''}[args[0]]
         elif name == 'AfterClose':
             if args[0] == 'begin':
                 line = b'BEGIN'
@@ -258,7 +287,7 @@ class AuthServerDriver:
             if isinstance(getattr(a, 'reject_count', None), int) and not closed:
                 st['diag_rejects'] = a.reject_count
         if self.real and self.keyring:
-            files = [f for f in os.listdir(self.keyring) if not f.endswith('.lock')]
+            files = [f for f in (os.listdir(self.keyring) if os.path.isdir(self.keyring) else []) if not f.endswith('.lock')]
             st['diag_cookie_files'] = len(files)
         return st
 
